@@ -100,6 +100,7 @@ func (*Options).populateReporter
   requires @flags-defined forall j int :: {LineageAt(c, j)} 0 <= j && j < LineageLen(c) ==> CtxDef(LineageAt(c, j), "csv") != 0 && CtxDef(LineageAt(c, j), "no-color") != 0 && CtxDef(LineageAt(c, j), "collapse-last") != 0 && CtxDef(LineageAt(c, j), "collapse") != 0 && CtxDef(LineageAt(c, j), "no-totals") != 0 && CtxDef(LineageAt(c, j), "totals-only") != 0 && CtxDef(LineageAt(c, j), "shorten") != 0 && CtxDef(LineageAt(c, j), "use-old-reg-reporter") != 0 && CtxDef(LineageAt(c, j), "internal-template-name") != 0
   requires @own-flags CtxDef(c, "single-food") != 0 && CtxDef(c, "group-food") != 0 && CtxDef(c, "single-element") != 0
   modifies o.ReporterConfig
+  ensures @output-kept [C17] o.ReporterConfig.Output == old(o.ReporterConfig.Output)
   // a presentation flag is honoured at whatever level of the command line it is given
   ensures @csv [C15] o.ReporterConfig.CSV == (old(o.ReporterConfig.CSV) || AnySet(c, "csv", 0, LineageLen(c)))
   ensures @no-color [C15] o.ReporterConfig.Color == (old(o.ReporterConfig.Color) && !AnySet(c, "no-color", 0, LineageLen(c)))
@@ -144,6 +145,7 @@ func (*Options).Load returns (err)
   modifies ghost(cfgRd)
   let path := CtxString(c, "config")
   let loaded := useConfigFile && FileExists(path)
+  ensures @output-kept [C17] o.ReporterConfig.Output == old(o.ReporterConfig.Output)
   ensures @explicit-missing-config [C16] useConfigFile && !FileExists(path) && CtxIsSet(c, "config") ==> err != nil
   ensures @config-is-the-named-file [C16] err == nil && loaded ==> FileNameOf(RdSrc(cfgRd)) == path
   ensures @database [C16] err == nil && !CtxIsSet(c, "no-database") ==> o.GlobalConfig.DbFileName == Prec(CtxIsSet(c, "database"), CtxString(c, "database"), loaded && CfgHas(cfgRd, 1), CfgStr(cfgRd, 1), "food.yaml")
@@ -156,4 +158,11 @@ func (*Options).Load returns (err)
   ensures @print-layout [C14] err == nil ==> o.ReporterConfig.DateFormat == o.GlobalConfig.DateFormat
   ensures @begin-innermost [C06] err == nil ==> PeriodBound(o.FilterConfig.BeginningTime, c, "begin", o.GlobalConfig.Now, o.GlobalConfig.DateFormat, LineageLen(c), old(o.FilterConfig.BeginningTime))
   ensures @end-innermost [C06] err == nil ==> PeriodBound(o.FilterConfig.EndTime, c, "end", o.GlobalConfig.Now, o.GlobalConfig.DateFormat, LineageLen(c), old(o.FilterConfig.EndTime))
+
+// options.New: the documented defaults (the state Load starts from), and the report goes to the process's standard
+// output - an *os.File, not a buffered writer (the precondition of every command function, C17 / A-ONEBUF)
+func New returns (o)
+  props C16 C17 C08
+  ensures @defaults [C16] o != nil && fresh(o) && IsDefaultOptions(o)
+  ensures @stdout [C17] o.ReporterConfig.Output != nil && typeis(o.ReporterConfig.Output, "*os.File")
 @*/
